@@ -672,6 +672,9 @@ impl<'a, 'src> Resolver<'a, 'src> {
   fn for_(&mut self, for_: &mut ast::For<'src>) {
     // new scope for full loop including loop variables
     for_.symbols = self.scope(|self_| {
+      // the iterable is evaluated before the loop variables exist
+      self_.expr(&mut for_.iter);
+
       // token for hidden $iter variable
       let iterator_token = Token::new(
         TokenKind::Identifier,
@@ -686,7 +689,6 @@ impl<'a, 'src> Resolver<'a, 'src> {
 
       self_.declare_variable(&for_.item);
       self_.define_variable(&for_.item);
-      self_.expr(&mut for_.iter);
 
       // loop body
       for_.body.symbols = self_.scope(|self_| self_.block(&mut for_.body));
